@@ -107,6 +107,8 @@ func (em *emitter) emitNodes(nodes []ast.Node) {
 		case *ast.For:
 			currentBreakable := em.breakable
 			currentBreakLabel := em.breakLabel
+			currentInForRange := em.inForRange
+			em.inForRange = false
 			em.breakable = true
 			em.breakLabel = nil
 			em.fb.enterScope()
@@ -147,6 +149,7 @@ func (em *emitter) emitNodes(nodes []ast.Node) {
 			}
 			em.breakable = currentBreakable
 			em.breakLabel = currentBreakLabel
+			em.inForRange = currentInForRange
 
 		case *ast.ForRange:
 			em.emitForRange(node)
